@@ -38,3 +38,28 @@ Proof.
       exists r. split; [reflexivity|]. apply guard_nil in G. exact G.
 Qed.
 Print Assumptions C04_checker_sound.
+
+(* Part 2: universal frame theorems over the generator model.
+   (a) every link of an auto-connected m x n router array joins (i,j) on port k to (i,j) + to_coords k
+       with k one of North/East/South/West, and arrives there on the opposite port;
+   (b) under XY the coordinate an interface is given is its router's array coordinate plus the step of
+       the direction named on the link between them -- and that direction is the router's port index
+       (compile_router places a directed link on its index: C05_model_holds), so an interface on the
+       local port (Eject, step (0,0)) shares the router's coordinate;
+   (c) all coordinates, after the common offset, fit the emitted field widths (C07_model_xy). *)
+From FV Require Import Graph Desc Build Compile ConnProofs.
+
+Definition C04_model_statement : Prop :=
+  (forall name m n e, In e (flat_map (array_links name) (grid_idx m n)) ->
+     exists i j k dx dy, e_src e = full_name name [i; j] /\ e_src_dir e = Some k /\ to_coords k = Ok (dx, dy) /\
+       e_dst e = full_name name [i + dx; j + dy] /\ 0 <= k < 4 /\
+       exists k', e_dst_dir e = Some k' /\ to_coords k' = Ok (- dx, - dy)) /\
+  (forall g d ni uid x y p, d_algo d = XY -> ni_id g d ni uid = Ok (IdXY x y p) ->
+     p = 0 /\ exists s rx ry k dx dy, In s (successors g (n_name ni)) /\ rt_coord_of g s = Some (rx, ry) /\
+       to_coords k = Ok (dx, dy) /\ x = rx + dx /\ y = ry + dy /\
+       ((exists e1, find_edge g (n_name ni) s = Some e1 /\ e_dst_dir e1 = Some k) \/
+        (exists e2, find_edge g s (n_name ni) = Some e2 /\ e_src_dir e2 = Some k))).
+
+Theorem C04_model_holds : C04_model_statement.
+Proof. exact (conj mesh_links_frame ni_xy_frame). Qed.
+Print Assumptions C04_model_holds.
